@@ -3,13 +3,13 @@
     specification agree. *)
 From Coq Require Import String Ascii List Bool Arith NArith ZArith.
 From Raven Require Import Base.GoStr Model.Search Model.SearchText Spec.Search Model.SearchClass.
+From Raven Require Model.CmdTokenizer.
 Import ListNotations.
 Local Open Scope N_scope.
 
 Definition cls_code (c : option cls) : N :=
   match c with
-  | None => 0 | Some CUnknownKey => 6 | Some CSentDateTab => 8
-  | Some CQuotedSpace => 11
+  | None => 0 | Some CUnknownKey => 6 | Some CNoOther => 15
   end.
 
 Definition ob_eqb (a b : option bool) : bool :=
@@ -49,8 +49,8 @@ Definition scase := (list key * str * bool * reply)%type.
 Definition tag_ : str := S_ "t".
 Definition session_case_code (mb : list smsg) (c : scase) : N :=
   let '(ks, text, uid_mode, impl) := c in
-  let parts := if uid_mode then tag_ :: S_ "UID" :: S_ "SEARCH" :: fields text
-               else tag_ :: S_ "SEARCH" :: fields text in
+  let parts := if uid_mode then tag_ :: S_ "UID" :: S_ "SEARCH" :: Model.CmdTokenizer.split_command_line text
+               else tag_ :: S_ "SEARCH" :: Model.CmdTokenizer.split_command_line text in
   let model := if uid_mode then uid_search_cmd parts (to_msgs mb) else search_cmd parts (to_msgs mb) in
   let spec := if uid_mode then spec_uid_search ks mb else spec_search ks mb in
   let c := classify_line ks mb in
@@ -60,8 +60,8 @@ Definition session_case_code (mb : list smsg) (c : scase) : N :=
 Definition rscase := (str * bool * reply)%type.
 Definition raw_session_case_code (mb : list smsg) (c : rscase) : N :=
   let '(text, uid_mode, impl) := c in
-  let parts := if uid_mode then tag_ :: S_ "UID" :: S_ "SEARCH" :: fields text
-               else tag_ :: S_ "SEARCH" :: fields text in
+  let parts := if uid_mode then tag_ :: S_ "UID" :: S_ "SEARCH" :: Model.CmdTokenizer.split_command_line text
+               else tag_ :: S_ "SEARCH" :: Model.CmdTokenizer.split_command_line text in
   let model := if uid_mode then uid_search_cmd parts (to_msgs mb) else search_cmd parts (to_msgs mb) in
   if reply_eqb model impl then 0 else 1.
 
